@@ -14,22 +14,14 @@ def pyFormat : Value → Option String
   | .date d => some d.show
   | _ => none
 
-/-- `<` without the NULL stand-in: `none` = TypeError -/
-def plainLt? (a b : Value) : Option Bool :=
-  match a, b with
-  | .null, _ => none
-  | _, .null => none
-  | a, b => pyLt? a b
-
 def dedupValues : List Value → List Value
   | [] => []
   | v :: vs => v :: (dedupValues vs).filter (fun w => !pyEq v w)
 
-/-- all pairwise comparisons a sort may perform are defined -/
-def allComparable (vs : List Value) : Bool :=
-  vs.length ≤ 1 || vs.all (fun a => vs.all (fun b => (plainLt? a b).isSome))
-
-def valueLt (a b : Value) : Bool := (plainLt? a b).getD false
+/-- `sorted(values)` / `list.sort(key=itemgetter(i))` without the NULL stand-in raise TypeError as
+    soon as two values of different classes (or a None) are compared -/
+def plainSortable (vs : List Value) : Bool :=
+  vs.length ≤ 1 || (vs.all (fun v => classRank v != 0 && classRank v != 4 && classRank v == classRank (vs.headD .null)))
 
 /-- `itertools.groupby` on adjacent equal keys -/
 def groupAdjacent (key : Row → Value) : List Row → List (Value × List Row)
@@ -47,13 +39,19 @@ def findIndex? (keys : List Value) (v : Value) : Option Nat :=
   let i := keys.findIdx (fun k => pyEq k v)
   if i < keys.length then some i else none
 
-def pivotRow (keys : List Value) (othercols : List Nat) (col2 : Nat) (width : Nat) (field1 : Value)
-    (group : List Row) : Except String Row :=
-  group.foldlM (fun out row =>
+def otherVals (othercols : List Nat) (row : Row) : Row := othercols.map (fun i => row.getD i .null)
+
+/-- the inner loop: `index = keys.index(row[col2]) * nother + 1; outrow[index:index+nother] = other(row)` -/
+def placeRows (keys : List Value) (othercols : List Nat) (col2 : Nat) : Row → List Row → Except String Row
+  | out, [] => .ok out
+  | out, row :: rest =>
     match findIndex? keys (row.getD col2 .null) with
     | none => .error "ValueError"
-    | some k => .ok (spliceAt out (k * othercols.length + 1) (othercols.map (fun i => row.getD i .null))))
-    (field1 :: List.replicate (width - 1) .null)
+    | some k => placeRows keys othercols col2 (spliceAt out (k * othercols.length + 1) (otherVals othercols row)) rest
+
+def pivotRow (keys : List Value) (othercols : List Nat) (col2 : Nat) (width : Nat) (field1 : Value)
+    (group : List Row) : Except String Row :=
+  placeRows keys othercols col2 (field1 :: List.replicate (width - 1) .null) group
 
 /-- the EvalPivot branch of `execute_query` applied to the SELECT's result -/
 def execPivot (desc : List (String × Ty)) (rows : List Row) (col1 col2 : Nat) :
@@ -63,8 +61,8 @@ def execPivot (desc : List (String × Ty)) (rows : List Row) (col1 col2 : Nat) :
   let nother := othercols.length
   let keyset := dedupValues (rows.map (fun r => r.getD col2 .null))
   if !(keyset.all hashable) then .error "TypeError" else
-  if !allComparable keyset then .error "TypeError" else
-  let keys := stableSort valueLt keyset
+  if !plainSortable keyset then .error "TypeError" else
+  let keys := stableSort keyLt keyset
   let n1 := (desc.getD col1 ("", .obj)).1
   let n2 := (desc.getD col2 ("", .obj)).1
   let others := othercols.map (fun i => desc.getD i ("", .obj))
@@ -77,8 +75,8 @@ def execPivot (desc : List (String × Ty)) (rows : List Row) (col1 col2 : Nat) :
     let dtypes : List Ty := (desc.getD col1 ("", .obj)).2 :: (List.replicate keys.length (others.map (·.2))).flatten
     let newDesc := names.zip dtypes
     let firsts := rows.map (fun r => r.getD col1 .null)
-    if !allComparable firsts then .error "TypeError" else
-    let sorted := stableSort (fun a b => valueLt (a.getD col1 .null) (b.getD col1 .null)) rows
+    if !plainSortable firsts then .error "TypeError" else
+    let sorted := sortPass [col1] false rows
     let groups := groupAdjacent (fun r => r.getD col1 .null) sorted
     match groups.mapM (fun g => pivotRow keys othercols col2 newDesc.length g.1 g.2) with
     | .error x => .error x
